@@ -115,22 +115,29 @@ where
         )?;
     }
     writeln!(writer, "pub struct {rust_name} {{")?;
-    if rust_type.is_string() {
-        writeln!(writer, "    #[yaserde(text = true)]")?;
-        writeln!(writer, "    pub value: {rust_type}")?;
-    } else if rust_type.is_other() {
-        writeln!(writer, "    #[yaserde(flatten = true)]")?;
-        writeln!(writer, "    pub value: {rust_type}")?;
-    } else {
-        // note: flatten is not supported for other types
-        writeln!(writer, "    #[yaserde(text = true)]")?;
-        writeln!(writer, "    pub value: String")?;
-    }
+    // every simple type carries its value as text; a type that restricts another named simple type does so as well
+    // (a flattened member of the base type's struct can not be read back), and checks the base type's facets
+    // together with its own
+    writeln!(writer, "    #[yaserde(text = true)]")?;
+    writeln!(writer, "    pub value: String")?;
     writeln!(writer, "}}")?;
 
     // Write the restriction check
     write_check_restrictions_header(writer, rust_name, restrictions)?;
-    writeln!(writer, "     self.value.check_restrictions(restrictions)")?;
+    if rust_type.is_other() {
+        if restrictions.is_none() {
+            writeln!(writer, "     drop(restrictions);")?;
+        }
+        writeln!(
+            writer,
+            "     {rust_type} {{ value: self.value.clone() }}.check_restrictions(None)?;"
+        )?;
+    }
+    if rust_type.is_other() && restrictions.is_none() {
+        writeln!(writer, "     Ok(())")?;
+    } else {
+        writeln!(writer, "     self.value.check_restrictions(restrictions)")?;
+    }
     write_check_restrictions_footer(writer)?;
 
     Ok(())
